@@ -218,6 +218,7 @@ def run(res, tier, sc, drv, ws):
 # accepted (so the context itself is not what gets rejected).  Checking positions matter: an argument of a generic
 # call is checked in synthesis mode, a lambda body against an expected type, etc.
 GEN_PRELUDE = """import { Option } from std.option;
+import { Pair, Triple } from std.tuples;
 interface Ordered<T> { method compare(other: T): int }
 class Meter(val v: int) : Ordered<Meter> { method compare(other: Meter): int = this.v - other.v }
 class Plain(val v: int) {}
@@ -232,7 +233,16 @@ class Helper {
   function two(a: int, b: int): int = a + b
   function <T> id(t: T): T = t
   function apply(f: (int) -> int): int = f(1)
+  function cellInt(c: Cell<int>): int = c.content
+  function twoIntStr(t: Two<int, Str>): int = t.a
+  function cellFn(c: Cell<(int) -> int>): int = 1
+  function pairFirst(p: Pair<int, int>): int = p.e0
+  function tripleSum(t: Triple<int, int, int>): int = t.e0 + t.e1 + t.e2
+  function optInt(o: Option<int>): int = 1
+  function three(n: int): Three = if n > 1 { Three.A3() } else { if n > 0 { Three.B3() } else { Three.C3() } }
 }
+class Three(A3, B3, C3) {}
+class Two<A, B>(val a: A, val b: B) {}
 """
 GEN_FAULTS = {
     "bound_inferred": "Cmp.maxV(Plain.init(1), Plain.init(2))",
@@ -255,6 +265,22 @@ GEN_FAULTS = {
     "duplicate_binding": "{ let a = 1; let a = 2; a }",
     "wrong_result_type": '"text"',
     "unit_as_int": "Process.println(\"x\")",
+    # the type system core: assignability of nominal types with type arguments, function types, tuples
+    "type_argument_mismatch": "Helper.cellInt(Cell.init(true))",
+    "second_type_argument_mismatch": "Helper.twoIntStr(Two.init(1, 2))",
+    "lambda_parameter_count": "Helper.apply((x, y) -> x)",
+    "lambda_return_type": "Helper.apply((x) -> true)",
+    "function_type_inside_type_argument": "Helper.cellFn(Cell.init((x: int) -> true))",
+    "tuple_arity": "Helper.pairFirst((1, 2, 3))",
+    "tuple_third_component": 'Helper.tripleSum((1, 2, "x"))',
+    "option_payload_mismatch": "Helper.optInt(Option.Some(true))",
+    "bool_for_int": "Helper.one(true)",
+    "else_if_middle_branch": '(if Helper.one(1) > 9 { 1 } else if Helper.one(2) > 8 { "s" } else if Helper.one(3) > 7 { 3 } else { 4 })',
+    "else_if_first_branch": '(if Helper.one(1) > 9 { "s" } else if Helper.one(2) > 8 { 2 } else { 3 })',
+    "else_if_nested_type_argument": "Helper.cellInt(if Helper.one(1) > 9 { Cell.init(1) } else if Helper.one(2) > 8 { Cell.init(true) } else if Helper.one(3) > 7 { Cell.init(3) } else { Cell.init(4) })",
+    "match_arm_type": '(match Option.Some(1) { Some(x) -> x, None -> "s" })',
+    "match_middle_arm_type": "(match Helper.three(1) { A3 -> 1, B3 -> true, C3 -> 3 })",
+    "int_for_bool_operand": "(if 1 + (if true && 3 { 1 } else { 2 }) > 0 { 1 } else { 2 })",
 }
 GEN_CONTEXTS = {
     "statement": "class Main { function main(): unit = { let _ = HOLE; } }",
